@@ -160,7 +160,7 @@ Require Rig.Model.Route Rig.Spec.Route.
 Require Import Rig.Model.Tables Rig.Spec.Tables.
 Require Import Rig.Generated.GenTable Rig.Model.Table Rig.Spec.Table Rig.Model.Network Rig.Spec.Network.
 Require Import Rig.Proofs.NetworkComposeDefs Rig.Proofs.NetworkComposeMin Rig.Proofs.NetworkComposeGen
-        Rig.Proofs.NetworkCompose Rig.Proofs.NetworkComposeRoute.
+        Rig.Proofs.NetworkCompose Rig.Proofs.NetworkComposeRoute Rig.Proofs.NetworkComposeC03.
 
 (* (1) tables_of_trees_hop.  If the model of routing_tree_to_tables returns tables T for nets_ok inputs,
    then for every net, every 32-bit key k matched by the net's (key, mask), and every node of the net's tree
@@ -325,6 +325,25 @@ Theorem C01_nets_ok_of_C03 :
                          ~ In (p, l) (tree_exits (rtree_of (tree_of t))))) ->
     nets_ok (nm_of m) (map (fun nt => (fst nt, tree_of (snd nt))) rroutes) net_keys.
 Proof. exact nets_ok_of_C03. Qed.
+
+(* ... and with C03's own theorems discharging two of those three assumptions: for nets routed by the MODEL of
+   the router (route_net) under the hypotheses of C03_route_valid, with endpoint constraints naming members of
+   Routes, every chip of the tree is a working chip (C03_route_all_working) and every leaf route is in 0..23
+   (C03_leaf_routes_in_range).  What remains an assumption -- nothing in rig or in C03 rules it out -- is that
+   no hop of a tree uses a link that is also an endpoint link of that same tree (the pipeline generator marks
+   endpoint links dead, as probing does for links with peripherals). *)
+Theorem C01_nets_ok_of_route_net :
+  forall m (rroutes : list (Z * Route.rtree)) (net_keys : list (Z * km)),
+    (forall n t, In (n, t) rroutes -> exists c, zassoc n net_keys = Some c /\ km32 c) ->
+    (forall n1 t1 n2 t2 c1 c2,
+       In (n1, t1) rroutes -> In (n2, t2) rroutes -> n1 <> n2 ->
+       zassoc n1 net_keys = Some c1 -> zassoc n2 net_keys = Some c2 -> km_disjoint c1 c2) ->
+    (forall n t, In (n, t) rroutes ->
+       routed_by_model m t
+       /\ (forall p l c, In (p, Some l, c) (Route.tree_hops t) ->
+                         ~ In (p, l) (tree_exits (rtree_of (tree_of t))))) ->
+    nets_ok (nm_of m) (map (fun nt => (fst nt, tree_of (snd nt))) rroutes) net_keys.
+Proof. exact nets_ok_of_route_net. Qed.
 
 Theorem C01_delivered_cores_are_sink_cores :
   forall m src sinks t c x,
